@@ -143,11 +143,16 @@ pub struct IoMode {
     pub max_delay_ms: u64,
     pub vectored: bool,
     pub cap: usize,
+    /// the reader initialises the whole unfilled part of the caller's buffer before it fills a
+    /// (possibly shorter) part of it - the `initialize_unfilled(); advance(n)` idiom of many
+    /// AsyncRead implementations; legal, and visible to adapters that confuse the two cursors
+    #[serde(default)]
+    pub overinit: bool,
 }
 
 impl IoMode {
     pub fn plain() -> Self {
-        IoMode { chunk: Chunk::Whole, pending_pct: 0, delay_pct: 0, max_delay_ms: 0, vectored: true, cap: 64 * 1024 }
+        IoMode { chunk: Chunk::Whole, pending_pct: 0, delay_pct: 0, max_delay_ms: 0, vectored: true, cap: 64 * 1024, overinit: false }
     }
     pub fn draw(r: &mut Rng) -> Self {
         IoMode {
@@ -157,6 +162,7 @@ impl IoMode {
             max_delay_ms: *r.pick(&[1u64, 5, 50]),
             vectored: r.bool(),
             cap: *r.pick(&[1usize, 2, 7, 64, 1024, 65536]),
+            overinit: r.chance(1, 3),
         }
     }
     /// For connections that carry HTTP/2 or TLS: both need room in both directions at once
@@ -401,6 +407,9 @@ impl AsyncRead for SimStream {
         }
         if p.reset {
             return Poll::Ready(Err(io::ErrorKind::ConnectionReset.into()));
+        }
+        if p.mode.overinit && (!p.buf.is_empty() || p.eof) {
+            let _ = dst.initialize_unfilled();
         }
         if p.buf.is_empty() {
             if p.eof {
